@@ -158,7 +158,7 @@ def run(ctx):
     #     judged by the Lean history model, the open/heading schedule model, the format-selection model and the binding model
     th = {"evaluations": 0, "distinct": 0}
     if not ctx.violations:
-        th = tracelib.run_histories(ctx, ctx.build_harness("ph_trace"), ctx.n(30, 500) if ok else 300)
+        th = tracelib.run_histories(ctx, tracelib.build_trace_harness(ctx), ctx.n(30, 500) if ok else 300)
     ctx.cov["evaluations"] = evals + tr["evaluations"] + th["evaluations"]
     ctx.cov["distinct_nontrivial"] = len(distinct) + tr["distinct"] + th["distinct"]
     ctx.cov["traces_validated_against_impl"] = tr["evaluations"] + th["evaluations"]
@@ -203,6 +203,6 @@ def replay(ctx, data):
 
 MANIFEST = dict(
     technique='Lean 4 theorems on models of CSelectedOutput, of the punch routing within a call and across calls (history model), of the do_run open/heading schedule, of the print-format selection and of the C/C++/Fortran cell accessors; op-sequence, PHRQ_io event-trace and multi-call history correspondence with the real code',
-    text="Theorems (Properties/C05.lean, Properties/Route.lean), all for every op sequence / event trace / history: table invariant, Get contract incl. out-of-range, late-column padding, last-write-wins; file=string within a call and in any history (history_sel_file_eq_string: whatever earlier calls left on disk), disabled sinks untouched (history_sel_file_untouched, call_msg_streams), views are functions of the last call (call_views_forget, run_views_last), line vectors = getline lines of this call's string (call_lines_spec); exactly one heading line per block and call for all definition sets with the repaired open loop (first_sim_heads_hoisted; witness and partial theorem for the loop as it was); format selection (fmtOf_high_precision, fmtOf_flag_matters, fmtOf_userStr); bindings (getOpt_error_typed, bindings_agree, rowCountF_spec, reported_type, padF_spec, fits_unchanged). Tie: (a) random op sequences on the real CSelectedOutput; (b) recorded PHRQ_io event traces of real calls replayed through the model; (c) histories of 2..5 calls with different inputs and switch changes judged by the history model, the schedule model driven from an independent reading of the input texts (defined numbers, -high_precision, re-read blocks, PRINT -selected_output) with the engine's own state compared to that reading, the format-selection model on every punched value, and the four accessors on every (row, col) incl. out-of-range / unknown numbers / buffers shorter than the value; direct oracle on the object's own views and the files on disk.",
+    text="Theorems (Properties/C05.lean, Properties/Route.lean), all for every op sequence / event trace / history: table invariant, Get contract incl. out-of-range, late-column padding, last-write-wins; file=string within a call and in any history (history_sel_file_eq_string: whatever earlier calls left on disk), disabled sinks untouched (history_sel_file_untouched, call_msg_streams), views are functions of the last call (call_views_forget, run_views_last), line vectors = getline lines of this call's string (call_lines_spec); exactly one heading line per block and call for all definition sets with the repaired open loop (first_sim_heads_hoisted; witness and partial theorem for the loop as it was); format selection (fmtOf_high_precision, fmtOf_flag_matters, fmtOf_userStr); bindings (getOpt_error_typed, bindings_agree, rowCountF_spec, reported_type, padF_spec, fits_unchanged). Tie: (a) random op sequences on the real CSelectedOutput; (b) recorded PHRQ_io event traces of real calls replayed through the model; (c) histories of 2..5 calls with different inputs and switch changes judged by the history model, the schedule model driven from an independent reading of the input texts (defined numbers, -high_precision, re-read blocks, PRINT -selected_output) with the engine's own state compared to that reading, the format-selection model on every punched value, and the four accessors on every (row, col) incl. out-of-range / unknown numbers / buffers shorter than the value; direct oracle on the object's own views and the files on disk, incl. 'ColumnCount = number of headings of the heading line and the k-th value punched in a row is the k-th cell of the table row' for blocks using every entity-list option (-totals -molalities -activities -equilibrium_phases -saturation_indices -gases -kinetic_reactants -solid_solutions -calculate_values) with names in another letter case than the defining block and entities present in some rows, absent in others.",
     note='Trusted: Lean kernel, harness/ph_selout.cpp, harness/ph_trace.cpp + trace.hpp (event recording through virtual PHRQ_io methods, friend shims), tools/tracelib.py (incl. its reader of the input text and of the shape of the do_run loop). Rendering of a value with a given printf format is a parameter of the model (re-rendered by vsnprintf in the harness; numbers handed out by Value2/ValueF re-rendered in Python); the CHOICE of the format is modelled. Not modelled: -isotopes / -calculate_values / -kinetics columns formats are not generated; INVERSE_MODELING rows (known finding). Known findings: switch of current user number; SELECTED_OUTPUT redefinition within a call (attributed only when the input text re-reads the block in a later simulation); inverse rows.',
 )
